@@ -53,12 +53,64 @@ def shards(tier, seed):
          dict(n=3, k=2, T=2, labels=["x"]), dict(n=4, k=1, T=2, labels=["x", None]), dict(n=5, k=1, T=1, labels=XY)]
     if tier == "thorough":
         U += [dict(n=2, k=2, T=3, labels=XY), dict(n=3, k=2, T=2, labels=XY, sym=True), dict(n=4, k=1, T=2, labels=XY)]
-    tasks = []
+    tasks = [{"far": {"t0": t0, "step": st, "universe": fu}, "tier": tier}
+             for t0 in FAR_T0[: 2 if tier == "quick" else 4] for st in (0.3, 0.7)
+             for fu in (FAR_U_QUICK if tier == "quick" else FAR_U)]
     for u in U:
         ns = max(1, min(40, size_G(u["n"], u["k"], u["T"], u["labels"]) // 40))
         for s in range(ns):
             tasks.append({"universe": u, "shard": s, "nshards": ns, "tier": tier, "dup_every": 3})
     return tasks
+
+
+# times far from the origin and not representable in single precision: the float64 definition is out of reach of
+# float32 storage there, but the values the library carries and the values it recomputes from the same units must
+# still agree with each other (same stored precision on both paths)
+FAR_T0 = [250000.1, 50000.3, 1.0e6 + 0.7, 7777.77]
+FAR_U = [dict(n=2, k=2, T=3, labels=["x", "y"], sym=True), dict(n=3, k=1, T=3, labels=["x"])]
+FAR_U_QUICK = [dict(n=2, k=2, T=2, labels=["x", "y"], sym=True)]
+FAR_TOL = 2e-5
+
+
+def run_far(task, res, pa):
+    from ..universe import iter_G
+    f = task["far"]
+    u = f["universe"]
+    t0, st = f["t0"], f["step"]
+    for _, spec0 in iter_G(u["n"], u["k"], u["T"], u["labels"], sym=u.get("sym", False)):
+        spec = {"annotators": [[a, [[t0 + st * s_, t0 + st * e_, lab] for s_, e_, lab in us]] for a, us in spec0["annotators"]]}
+        c = build_continuum(spec)
+        for recipe in ({"k": "pos", "de": 1.0}, {"k": "comb", "a": 3.0, "b": 2.0, "de": 0.5}):
+            d = A.DISSIMS.get(recipe)
+            for kind, window in (("best", None), ("soft", None), ("fast", 1)):
+                obs = A.eval_case(spec, recipe, "cbc" if A.cbc_available() else "glpk_noimport", kind, window)
+                res["evaluations"] += 1
+                res["transitions"] += 2
+                if not obs["ok"]:
+                    continue
+                res["traces"] += 1
+                key = h(["far", spec, recipe, kind])
+                res["state_set"].append(key)
+                case = {"spec": spec, "recipe": recipe, "point": f"far {kind} w={window}", "nts": obs["nts"]}
+                try:
+                    al = lib_alignment(pa, obs["nts"], c)
+                    got = float(al.compute_disorder(d))
+                    stored = [float(ua.disorder) for ua in al.unitary_alignments]
+                except Exception as e:  # noqa
+                    res["violations"].append({"msg": f"recomputing the {kind} alignment's disorder raised {type(e).__name__}: {e}",
+                                              "case": case, "sig": h(["far-raise", kind])})
+                    continue
+                bad = not close(got, obs["disorder"], FAR_TOL) or \
+                    any(x is None or not close(x, y, FAR_TOL) for x, y in zip(obs["uds"], stored))
+                if bad:
+                    res["violations"].append({"msg": f"the {kind} alignment carries disorder {obs['disorder']} / {obs['uds']} but "
+                                                     f"recomputing from its units gives {got} / {stored} (times near {t0})",
+                                              "case": case, "sig": h(["far", kind, recipe, len(res["violations"]) // 4])})
+                else:
+                    res["outcomes"].append(round(got, 5))
+                    if any(sum(1 for _, x in nt if x is not None) >= 2 for nt in obs["nts"]) and got > 0:
+                        res["nontrivial"].append(key)
+    return res
 
 
 def perms_for(n, idx):
@@ -77,6 +129,8 @@ def run(task):
     tier = task["tier"]
     cap = 6 if tier == "quick" else 24
     idx = 0
+    if "far" in task:
+        return run_far(task, res, pa)
 
     def report(msg, case, known=None):
         if known:
@@ -131,7 +185,9 @@ def run(task):
                 plan += [("best", None, "cbc", {"recipe": recipe, "how": A.WARM_KINDS[(hk // 2) % len(A.WARM_KINDS)]}),
                          ("soft", None, "cbc", {"recipe": recipe, "how": A.WARM_KINDS[(hk // 2 + 3) % len(A.WARM_KINDS)]})]
             for kind, window, backend, warm in plan:
-                obs = A.eval_case(spec, recipe, backend if A.cbc_available() else "glpk_noimport", kind, window, warm=warm)
+                late = warm is None and backend == "cbc" and (hk + len(kind)) % 3 == 0
+                obs = A.eval_case(spec, recipe, backend if A.cbc_available() else "glpk_noimport", kind, window, warm=warm,
+                                  late=late)
                 res["evaluations"] += 1
                 res["transitions"] += 1
                 if not obs["ok"]:
@@ -145,7 +201,7 @@ def run(task):
                             "sequence": [pc["case"], A.case_dict(spec, recipe, "cbc", kind, window)]})
                 uds, tot = definition(obs["nts"], recipe, m, n)
                 case = {"spec": spec, "recipe": recipe, "point": f"library {kind} w={window}", "nts": obs["nts"],
-                        "backend": backend, "warm": warm}
+                        "backend": backend, "warm": warm, "late": late}
                 if not close(obs["disorder"], tot):
                     report(f"disorder carried by the {kind} alignment: {obs['disorder']} but its units give {tot}", case)
                 elif any(x is None or not close(x, y) for x, y in zip(obs["uds"], uds)):
@@ -239,10 +295,22 @@ def replay(case):
         o2 = A.eval_case(second["spec"], second["recipe"], second["backend"], second["kind"], second.get("window"))
         if o2.get("prev_changed"):
             out.append({"msg": "an alignment returned earlier changed after a later alignment computation", "case": case})
+    elif case["point"].startswith("far"):
+        _, kind, w = case["point"].split(" ")
+        window = None if w == "w=None" else int(w[2:])
+        obs = A.eval_case(spec, recipe, "cbc" if A.cbc_available() else "glpk_noimport", kind, window)
+        if obs["ok"]:
+            al = lib_alignment(pa, obs["nts"], build_continuum(spec))
+            got = float(al.compute_disorder(d))
+            stored = [float(ua.disorder) for ua in al.unitary_alignments]
+            if not close(got, obs["disorder"], FAR_TOL) or any(x is None or not close(x, y, FAR_TOL) for x, y in zip(obs["uds"], stored)):
+                out.append({"msg": f"{kind} alignment carries {obs['disorder']} / {obs['uds']}, recomputed {got} / {stored}",
+                            "case": case})
     elif case["point"].startswith("library"):
         _, kind, w = case["point"].split(" ")
         window = None if w == "w=None" else int(w[2:])
-        obs = A.eval_case(spec, recipe, case.get("backend", "cbc"), kind, window, warm=case.get("warm"))
+        obs = A.eval_case(spec, recipe, case.get("backend", "cbc"), kind, window, warm=case.get("warm"),
+                          late=case.get("late", False))
         if obs["ok"]:
             uds, tot = definition(obs["nts"], recipe, m, n)
             if not close(obs["disorder"], tot) or any(x is None or not close(x, y) for x, y in zip(obs["uds"], uds)):
